@@ -295,9 +295,12 @@ class RegionGeom:
     def find_lat_long_along_traj(self, dist_along_traj):
         # Compute xyz-coordinates in ENU frame of los between detector and spot on the ground
 
-        xPath_v = dist_along_traj * np.sin(self.thetas()) * np.cos(self.phis())
+        # The azimuth of the trajectory about the line of sight follows the convention
+        # of throw(): phi = 0 points away from the local normal, so that the angle
+        # between this trajectory and the normal is thetaTrSubN (costhetaTrSubN).
+        xPath_v = dist_along_traj * np.sin(self.thetas()) * np.sin(self.phis())
 
-        yPath_v = dist_along_traj * np.sin(self.thetas()) * np.sin(
+        yPath_v = -dist_along_traj * np.sin(self.thetas()) * np.cos(
             self.phis()
         ) + self.earth_radius * np.cos(self.valid_elevAngVSubN())
 
